@@ -45,9 +45,13 @@ type dag struct {
 	byHex  map[string]*gEvent
 	txSeq  int
 	txBody map[int][]byte
+	oldRoundEvents, lateWitnesses int // events / witnesses created into a round the reference node had already processed
+	outOfOrderSteps, witnessIntoWaitingDecided int
+	guidedLateWitnesses                        int
 }
 
 func newDag(rng *rand.Rand, n0, extra int) *dag {
+	// (coverage counters oldRoundEvents / lateWitnesses are filled by generate)
 	d := &dag{parts: newParticipants(rng, n0+extra), idx: map[string]int{}, n0: n0, byHex: map[string]*gEvent{}, txBody: map[int][]byte{}}
 	for i, p := range d.parts {
 		d.idx[p.hex] = i
@@ -512,12 +516,16 @@ type genOpts struct {
 	byz         []int    // creators with lying clocks
 	txKinds     bool     // exotic transaction payloads
 	burst       bool     // bursts of events without other-parent
+	sleeper     bool     // the last creator sleeps from steps/6 on and only wakes to create a witness of a decided round that still waits for an earlier one
+	topo        int      // gossip graph: 0 complete, 1 path, 2 two camps joined by one bridge (persistent split votes, slow elections)
+	ring        bool     // (with late) efficient ring gossip among the awake creators
+	late        bool     // creators nap, then catch up through old other-parents (truncated syncs): late witnesses, slow elections
 	txRate      int      // 1/txRate of events carry a transaction
 	refuseNone  struct{} // (placeholder: the application accepts every request)
 }
 
 func (o genOpts) String() string {
-	return fmt.Sprintf("n0=%d extra=%d steps=%d lag=%v silent=%v part=%v leave=%v stale=%v byz=%v burst=%v", o.n0, o.extra, o.steps, o.lag, o.silentThird, o.partition, o.leave, o.staleOp, o.byz, o.burst)
+	return fmt.Sprintf("n0=%d extra=%d steps=%d lag=%v silent=%v part=%v leave=%v stale=%v byz=%v burst=%v late=%v ring=%v topo=%d sleeper=%v", o.n0, o.extra, o.steps, o.lag, o.silentThird, o.partition, o.leave, o.staleOp, o.byz, o.burst, o.late, o.ring, o.topo, o.sleeper)
 }
 
 func randomOpts(rng *rand.Rand, thorough bool, dynamic bool) genOpts {
@@ -543,6 +551,31 @@ func randomOpts(rng *rand.Rand, thorough bool, dynamic bool) genOpts {
 	o.partition = rng.Intn(4) == 0 && o.n0 >= 4
 	o.staleOp = rng.Intn(2) == 0
 	o.burst = rng.Intn(4) == 0
+	o.late = rng.Intn(2) == 0 && o.n0 >= 4
+	if !dynamic && rng.Intn(4) == 0 {
+		// late-focused: nothing but naps and piecewise catch-up, long enough for many rounds
+		o.n0 = []int{4, 4, 4, 5}[rng.Intn(4)]
+		o.steps = 260 + rng.Intn(160)
+		if thorough {
+			o.steps += 200
+		}
+		o.late, o.lag, o.silentThird, o.partition, o.burst = true, false, false, false, false
+		o.ring = rng.Intn(3) != 0
+		o.topo = rng.Intn(3)
+		if o.topo != 0 {
+			o.ring = false
+		}
+	} else if !dynamic && o.n0 >= 4 && rng.Intn(4) == 0 {
+		o.topo = 1 + rng.Intn(2)
+		o.steps += 150
+		if rng.Intn(2) == 0 {
+			o.n0 = []int{5, 5, 7}[rng.Intn(3)]
+			o.topo = 2
+			o.sleeper = true
+			o.lag, o.silentThird, o.partition, o.byz = false, false, false, nil
+			o.steps += 100
+		}
+	}
 	o.txKinds = rng.Intn(3) == 0
 	o.txRate = 2 + rng.Intn(4)
 	if o.n0 >= 4 && rng.Intn(2) == 0 {
@@ -559,6 +592,21 @@ func randomOpts(rng *rand.Rand, thorough bool, dynamic bool) genOpts {
 		}
 	}
 	return o
+}
+
+// topoLinked: may creators x and y gossip directly
+func topoLinked(topo, n, x, y int) bool {
+	switch topo {
+	case 1: // path 0-1-2-...-(n-1)
+		return x-y == 1 || y-x == 1
+	case 2: // camps [0, n/2) and [n/2, n), complete inside, bridge between n/2-1 and n/2
+		h := n / 2
+		if (x < h) == (y < h) {
+			return true
+		}
+		return (x == h-1 && y == h) || (x == h && y == h-1)
+	}
+	return true
 }
 
 // generate builds the DAG by simulated gossip on top of the reference node
@@ -604,10 +652,89 @@ func generate(rng *rand.Rand, o genOpts, c *Case, ref *hnode) *dag {
 	joinIssued := map[int]bool{}
 	leaveIssued := false
 	burstLeft, burstWho := 0, 0
+	// naps and catch-up (o.late): a creator sleeps for a while; when it wakes up it learns the
+	// others' history piecewise — its next events take as other-parent the peer's event just beyond
+	// what it already knows (what a sync truncated by the sync limit gives), so it creates
+	// witnesses of old rounds long after the others decided them
+	napUntil := make([]int, n)
+	catchup := make([]int, n) // remaining catch-up events
+	ancMemo := map[[2]int]bool{}
+	nextUnknown := func(a, b int) *gEvent {
+		ch := chains[b]
+		if len(ch) == 0 {
+			return nil
+		}
+		lo := 0 // first index of b's chain that is not an ancestor of a's head
+		if heads[a] != nil {
+			for lo < len(ch) && isAncestor(ch[lo], heads[a], ancMemo) {
+				lo++
+			}
+		}
+		if lo >= len(ch) {
+			return ch[len(ch)-1]
+		}
+		k := lo + rng.Intn(3)
+		if k >= len(ch) {
+			k = len(ch) - 1
+		}
+		return ch[k]
+	}
+	if o.lag && o.late {
+		catchup[lagger] = 0 // set when the lag ends
+	}
+	ringPos := 0
 	for count := 0; count < o.steps; count++ {
 		a := rng.Intn(n)
 		if burstLeft > 0 {
 			a = burstWho
+		}
+		if o.late && o.ring && burstLeft == 0 && rng.Intn(6) != 0 {
+			// efficient ring gossip among the awake creators (rounds advance every few events);
+			// a creator that is catching up gets its turn now and then
+			cu := -1
+			for x := 0; x < o.n0; x++ {
+				if catchup[x] > 0 && napUntil[x] == 0 {
+					cu = x
+				}
+			}
+			if cu >= 0 && rng.Intn(3) == 0 {
+				a = cu
+			} else {
+				for try := 0; try < n; try++ {
+					ringPos = (ringPos + 1) % o.n0
+					if napUntil[ringPos] == 0 && catchup[ringPos] == 0 {
+						break
+					}
+				}
+				a = ringPos
+			}
+		}
+		if o.late && a < o.n0 && burstLeft == 0 {
+			away := 0 // creators that do not take part at the moment: a supermajority must stay awake
+			for x := 0; x < o.n0; x++ {
+				if napUntil[x] > 0 || (count >= silentFrom && silent[x]) || (x == lagger && count >= lagFrom && count < lagTo) {
+					away++
+				}
+			}
+			if count >= partFrom && count < partTo {
+				away = n
+			}
+			if napUntil[a] == 0 && catchup[a] == 0 && away < (o.n0-1)/3 && rng.Intn(25) == 0 {
+				napUntil[a] = count + 10 + o.steps/8 + rng.Intn(o.steps/3+1)
+			}
+			if napUntil[a] > 0 {
+				if count < napUntil[a] {
+					continue
+				}
+				napUntil[a] = 0
+				catchup[a] = 3 + rng.Intn(n+4)
+				if os.Getenv("DBGLATE") != "" {
+					fmt.Fprintf(os.Stderr, "DBG wake a=%d count=%d/%d catchup=%d\n", a, count, o.steps, catchup[a])
+				}
+			}
+			if o.lag && a == lagger && count >= lagTo && count < lagTo+3*n && catchup[a] == 0 {
+				catchup[a] = 3 + rng.Intn(3*n+4)
+			}
 		}
 		_, known := ref.store.RepertoireByPubKey()[d.parts[a].hex]
 		if !known && rng.Intn(30) != 0 {
@@ -621,6 +748,90 @@ func generate(rng *rand.Rand, o genOpts, c *Case, ref *hnode) *dag {
 		}
 		var op *gEvent
 		b := rng.Intn(n)
+		forcedOp := (*gEvent)(nil)
+		if (o.late || o.topo != 0) && (o.sleeper || rng.Intn(2) == 0) {
+			// state-guided: while a round R is decided on the reference node but waits for an earlier
+			// round, let a creator whose head is below R create a witness of R (other-parent in R)
+			roundOf := func(g *gEvent) int {
+				if g == nil {
+					return -1
+				}
+				if e, err := ref.store.GetEvent(g.ev.Hex()); err == nil && e.VerifRound() != nil {
+					return *e.VerifRound()
+				}
+				return -1
+			}
+			waiting, R := false, -1
+			for _, pr := range ref.h.PendingRounds.GetOrderedPendingRounds() {
+				if !pr.Decided {
+					waiting = true
+				} else if waiting && R < 0 {
+					R = pr.Index
+				}
+			}
+			if R >= 0 && os.Getenv("DBGLATE") != "" {
+				hs := []int{}
+				for x := 0; x < o.n0; x++ {
+					hs = append(hs, roundOf(heads[x]))
+				}
+				fmt.Fprintf(os.Stderr, "DBG window R=%d heads=%v naps=%v late=%v topo=%d\n", R, hs, napUntil, o.late, o.topo)
+			}
+			if R >= 0 {
+				for x := 0; x < o.n0 && forcedOp == nil; x++ {
+					if heads[x] == nil || roundOf(heads[x]) >= R {
+						continue
+					}
+					for y := 0; y < n && forcedOp == nil; y++ {
+						if y == x {
+							continue
+						}
+						for k := len(chains[y]) - 1; k >= 0; k-- {
+							rk := roundOf(chains[y][k])
+							if rk == R {
+								a, b, forcedOp = x, y, chains[y][k]
+								break
+							}
+							if rk < R {
+								break
+							}
+						}
+					}
+				}
+			}
+		}
+		if o.late && catchup[a] == 0 && forcedOp == nil {
+			// the awake creators gossip among themselves: rounds keep advancing while somebody naps
+			if o.ring && rng.Intn(6) != 0 {
+				b = a
+				for try := 0; try < n; try++ {
+					b = (b + o.n0 - 1) % o.n0
+					if b != a && napUntil[b] == 0 && catchup[b] == 0 {
+						break
+					}
+				}
+			}
+			for try := 0; try < 6 && (b == a || napUntil[b] > 0 || catchup[b] > 0); try++ {
+				b = rng.Intn(n)
+			}
+		}
+		asleep := o.sleeper && count >= o.steps/6
+		if asleep && forcedOp == nil && a == o.n0-1 {
+			continue
+		}
+		if o.topo != 0 && forcedOp == nil && a < o.n0 {
+			nb := []int{}
+			for y := 0; y < o.n0; y++ {
+				if asleep && y == o.n0-1 {
+					continue
+				}
+				if y != a && topoLinked(o.topo, o.n0, a, y) {
+					nb = append(nb, y)
+				}
+			}
+			if len(nb) > 0 {
+				b = nb[rng.Intn(len(nb))]
+			}
+		}
 		okPeer := b != a && heads[b] != nil
 		if okPeer && count >= lagFrom && count < lagTo && (b == lagger || a == lagger) {
 			okPeer = false // nobody talks to the lagger and it hears nobody
@@ -641,6 +852,23 @@ func generate(rng *rand.Rand, o genOpts, c *Case, ref *hnode) *dag {
 			op = heads[b]
 			if o.staleOp && rng.Intn(5) == 0 {
 				op = chains[b][rng.Intn(len(chains[b]))]
+			}
+			if forcedOp != nil {
+				op = forcedOp
+				d.guidedLateWitnesses++
+			} else if catchup[a] > 0 {
+				op = nextUnknown(a, b)
+				catchup[a]--
+				if os.Getenv("DBGLATE") != "" && heads[a] != nil && op != nil {
+					hr, or := -9, -9
+					if e, err := ref.store.GetEvent(heads[a].ev.Hex()); err == nil && e.VerifRound() != nil {
+						hr = *e.VerifRound()
+					}
+					if e, err := ref.store.GetEvent(op.ev.Hex()); err == nil && e.VerifRound() != nil {
+						or = *e.VerifRound()
+					}
+					fmt.Fprintf(os.Stderr, "DBG catchup a=%d b=%d headRound=%d opRound=%d opIdx=%d/%d lastRound=%d lcr=%v\n", a, b, hr, or, op.ev.Index(), len(chains[b]), ref.store.LastRound(), fo(ref.h.LastConsensusRound))
+				}
 			}
 		}
 		ntx := 0
@@ -705,6 +933,39 @@ func generate(rng *rand.Rand, o genOpts, c *Case, ref *hnode) *dag {
 		}
 		heads[a] = g
 		chains[a] = append(chains[a], g)
+		// coverage: a later round decided while an earlier one still waits (slow election), and
+		// witnesses created into such a decided-but-unprocessed round
+		{
+			prs := ref.h.PendingRounds.GetOrderedPendingRounds()
+			waiting := false
+			decidedAfterWaiting := map[int]bool{}
+			for _, pr := range prs {
+				if !pr.Decided {
+					waiting = true
+				} else if waiting {
+					decidedAfterWaiting[pr.Index] = true
+				}
+			}
+			if len(decidedAfterWaiting) > 0 {
+				d.outOfOrderSteps++
+				if e, err := ref.store.GetEvent(g.ev.Hex()); err == nil && e.VerifRound() != nil && decidedAfterWaiting[*e.VerifRound()] {
+					if ri, err := ref.store.GetRound(*e.VerifRound()); err == nil {
+						if re, ok := ri.VerifCreated()[g.ev.Hex()]; ok && re.Witness {
+							d.witnessIntoWaitingDecided++
+						}
+					}
+				}
+			}
+		}
+		// coverage: events that land in a round the reference node has already processed
+		if e, err := ref.store.GetEvent(g.ev.Hex()); err == nil && e.VerifRound() != nil && ref.h.LastConsensusRound != nil && *e.VerifRound() <= *ref.h.LastConsensusRound {
+			d.oldRoundEvents++
+			if ri, err := ref.store.GetRound(*e.VerifRound()); err == nil {
+				if re, ok := ri.VerifCreated()[g.ev.Hex()]; ok && re.Witness {
+					d.lateWitnesses++
+				}
+			}
+		}
 	}
 	// drop tombstones
 	evs := []*gEvent{}
